@@ -263,10 +263,10 @@ type GCInnerLite struct {
 }
 
 func driveC10(c *driverCtx) error {
-	for run := 0; run < c.pick(6, 60); run++ {
+	for run := 0; run < c.pick(6, 300); run++ {
 		driveBankOps(c, run)
 	}
-	for run := 0; run < c.pick(24, 400); run++ {
+	for run := 0; run < c.pick(24, 3000); run++ {
 		driveRetain(c, run)
 	}
 	return nil
